@@ -11,7 +11,7 @@ import (
 	"filippo.io/sunlight/internal/ctlog"
 )
 
-var scenarioKinds = []string{"basic", "faults", "crash", "two", "boundary", "pool", "clock", "faults", "crash", "startup", "two", "cache", "tamper"}
+var scenarioKinds = []string{"basic", "faults", "crash", "two", "boundary", "pool", "clock", "faults", "crash", "startup", "two", "cache", "tamper", "clockcrash"}
 
 const logName = "example.com/log"
 
@@ -358,6 +358,46 @@ func runScenario(d *driver, kind string) {
 			d.submitSome(li2, 2)
 			d.round(li2)
 			d.round(li2)
+		}
+	case "clockcrash":
+		// the lock store gets ahead of object storage (crash after the compare-and-swap, or a failed
+		// checkpoint upload), the log is restarted, and the clock then stalls at / steps back below the
+		// last COMMITTED timestamp while staying above the last PUBLISHED one
+		li := d.boot(0)
+		d.submitSome(li, 1+d.r.Intn(3))
+		d.round(li)
+		d.round(li)
+		d.submitSome(li, 1+d.r.Intn(3))
+		d.round(li) // entries move into sequencing
+		published := d.lastTs
+		d.lastTs += 100
+		if d.r.Intn(2) == 0 {
+			// crash right after the CAS: 0 clock? no: ops of a round with uploads are staging, cas, tiles...
+			d.crashWithin(li, 2+d.r.Intn(3))
+		} else {
+			li.in.plan = func(n int, op opInfo) fault {
+				if op.kind == "upload" && op.key == "checkpoint" {
+					return fFail
+				}
+				return fOK
+			}
+		}
+		d.round(li)
+		li.in.plan = nil
+		committed := d.lastTs
+		li2 := d.restart(li, d.r.Intn(2) == 0)
+		if li2 == nil {
+			return
+		}
+		d.submitSome(li2, 1)
+		stalled := []int64{committed, committed - 1, committed - 50, published + 1}[d.r.Intn(4)]
+		d.tsFn = func() int64 { return stalled }
+		d.round(li2)
+		d.tsFn = d.nextTs
+		if d.alive(li2) {
+			d.round(li2)
+		} else if li3 := d.restart(li2, true); li3 != nil {
+			d.round(li3)
 		}
 	case "crashenum":
 		// systematic crash placement: history number h selects the crash position inside the round
